@@ -18,6 +18,7 @@
    (D36, D37); the last section refutes the statements for the code before. *)
 From Coq Require Import List ZArith Bool Arith Permutation.
 From NT Require Import Sx Rose Export ExportProofs.
+From NT Require MiscMermaid MiscMermaidProofs.   (* part MERMAIDDEF, imported at the end of this file *)
 From NT Require Nav.
 From NT Require CaseC17.   (* the correspondence entry point is rebuilt with the obligations *)
 From NTGen Require Import Generated.
@@ -412,3 +413,43 @@ Print Assumptions C17_D37_prerepair_refuted.
 Theorem C17_generated_facts_present : GEN_MERMAID_OK = true /\ GEN_EXPORT_OK = true.
 Proof. split; reflexivity. Qed.
 Print Assumptions C17_generated_facts_present.
+
+(* ==== PART MERMAIDDEF: to_mermaid_flowchart called without options (model theories/Forest/MiscMermaid.v,
+   correspondence Cases/CaseMiscMermaid.v, harness parts_misc.MERMAIDDEF): the default arguments of the signatures are
+   ONE options record of Export.v, lifted from the source. ==== *)
+Import MiscMermaid MiscMermaidProofs.
+
+(* without options the export never raises, and the chart is the markdown fence, the title block naming the start node,
+   the generator comment, "flowchart <direction>", the node / edge lines of the unique-nodes export with the start node, the closing fence *)
+Theorem C17_mermaid_default_chart : forall dir s,
+  exists N E,
+    default_chart dir s =
+      Some ([L_md_open; L_dashes; L_title ++ rname s; L_dashes; []; L_generator; []; L_flowchart ++ dir; []; L_nodes]
+            ++ N ++ [[]; L_edges] ++ E ++ [L_md_close]) /\
+    map Some N = map mer_node_text (mer_nodes true true s) /\
+    map Some E = map mer_edge_text (mer_edges true true s).
+Proof. exact default_chart_total. Qed.
+Print Assumptions C17_mermaid_default_chart.
+
+Theorem C17_mermaid_default_direction_line : forall dir s ls,
+  default_chart dir s = Some ls -> nth_error ls 7 = Some (L_flowchart ++ dir).
+Proof. exact default_chart_direction_line. Qed.
+Print Assumptions C17_mermaid_default_direction_line.
+
+(* tie to the source (gen_facts section MISCMERMAID): the `direction` default of all four signatures
+   (_node_to_mermaid_flowchart_iter, node_to_mermaid_flowchart, Node.to_mermaid_flowchart, Tree.to_mermaid_flowchart) is
+   mermaid.DEFAULT_DIRECTION, and the default tables of the Node and the Tree method decode to the model's record *)
+Theorem C17_mermaid_defaults_from_source :
+  GEN_MISCMERMAID_OK = true /\
+  Forall (fun d => d = MERMAID_DEFAULT_DIRECTION) MERMAID_DIRECTION_DEFAULTS /\ length MERMAID_DIRECTION_DEFAULTS = 4 /\
+  mopts_of_defaults MERMAID_NODE_DEFAULTS [97; 100; 100; 95; 115; 101; 108; 102]%Z = Some (default_mopts MERMAID_DEFAULT_DIRECTION) /\
+  mopts_of_defaults MERMAID_TREE_DEFAULTS [97; 100; 100; 95; 114; 111; 111; 116]%Z = Some (default_mopts MERMAID_DEFAULT_DIRECTION).
+Proof. vm_compute. repeat split; repeat constructor. Qed.
+Print Assumptions C17_mermaid_defaults_from_source.
+
+(* non-vacuity: a decoding that is not the identity – a table with unique_nodes=False gives a different record *)
+Example C17_mermaid_ex_decoding :
+  option_map mo_unique (mopts_of_defaults
+    (map (fun e => if text_eqb (fst e) k_unique then (fst e, [70; 97; 108; 115; 101]%Z) else e) MERMAID_NODE_DEFAULTS)
+    [97; 100; 100; 95; 115; 101; 108; 102]%Z) = Some false.
+Proof. vm_compute. reflexivity. Qed.
